@@ -175,5 +175,12 @@ example : intOk (-9223372036854775807) = true ∧ doubleOk cs!"-+1.5E-3" = true 
 example : TypeFollow (.mk .i32 []) cs!" x" :=
   typeFollow_name (.mk .i32 []) (BT.ws ' ' [] (by decide) BT.nil) (Or.inl (by simp)) (name := cs!"x") (X := [])
     (by decide) (by decide) (by decide)
+example : FieldFollow cs!"2: i32 b }" ∧ Sep cs!"}" := ⟨fieldFollow_of_digit (by decide), by decide⟩
+example : ItemStart cs!"struct S {}" ∧ ItemStart [] := ⟨by unfold ItemStart; decide, by unfold ItemStart; decide⟩
+example : ConstFollow (.int 5) cs!" , 6]" ∧ ConstFollow (.path ⟨[cs!"a"]⟩) cs!"]" :=
+  ⟨by show Sep _; decide, ⟨by decide, pathStop_of (b := []) BT.nil (by decide) (by decide)⟩⟩
+example : ∀ d, FnFollow d cs!"}" := fun d => fnFollow_close d []
+example : PathStop cs!" = 1" := pathStop_of (b := cs!" ") (BT.ws ' ' [] (by decide) BT.nil) (by decide) (by decide)
+example : Annotations.wf [⟨cs!"go.tag", cs!"json:\\\"id\\\""⟩] = true := by decide
 
 end Pilota.Props.C15
